@@ -5,7 +5,7 @@ from vf.symx import core, shims, ops as X
 from vf.symx.core import US_DAY, ORD_MIN, ORD_MAX
 from .dates_common import *
 
-FUNCS = ['pyg_base._dates:dt', 'pyg_base._dates:ymd', 'pyg_base._dates:num2dt', 'pyg_base._dates:_ymd', 'pyg_base._dates:ym', 'pyg_base._dates:month',
+FUNCS = ['pyg_base._dates:uk2dt', 'pyg_base._dates:us2dt', 'pyg_base._dates:dt2str', 'pyg_base._dates:_date_format', 'pyg_base._dates:tz_replace', 'pyg_base._dates:dt', 'pyg_base._dates:ymd', 'pyg_base._dates:num2dt', 'pyg_base._dates:_ymd', 'pyg_base._dates:ym', 'pyg_base._dates:month',
          'pyg_base._dates:today', 'pyg_base._dates:dt_bump']
 BOUNDS = dict(t = 'every instant of 1900-01-01 .. 2299-12-31 to the microsecond (seconds for the (y,m,d,h,mi,s) spelling)',
               overflow = 'dt(y,m,d): y in [1900,2299], every month in [-36,48], every day in [-400,400]',
@@ -90,6 +90,81 @@ def h_bands(c):
     finally:
         if c.mode != 'sym': D.datetime = _rdt
 
+# ---------------------------------------------------------------- string spellings (template strings + validated parser contract)
+_D2 = {}
+def setup_str():
+    """_dates.py is re-loaded through the AST rewrite (for `t in ('NaT')` etc.) with the proxy datetime, the template-aware int, the parser contract stub
+    and shape-only wrappers around its five module-level regexes"""
+    setup_dates()
+    from vf.symx import rewrite, parser_stub, symstr
+    import pyg_base._dates as D0
+    extra = dict(datetime = shims.dtmod, int = shims.shim_int, parser = parser_stub.make(shims.shim_datetime))
+    D2 = rewrite.load('pyg_base._dates', extra)
+    for name in ('period', 'ambiguity', 'iso', 'yyyymm', 'yyyymmm'):
+        rx = symstr.Regex(getattr(D0, name)); rx.shape_only = True          # reviewed: character classes, separators and month names only
+        setattr(D2, name, rx)
+    _D2['D'] = D2
+
+def Ds(c):
+    if c.mode == 'sym': return _D2['D']
+    import pyg_base._dates as D
+    return D
+
+def unpadded(c, t, order, sep):
+    """d<sep>m<sep>yyyy without zero padding (the number of digits of day and month is decided by forks)"""
+    if c.mode != 'sym':
+        a, b = (t.day, t.month) if order == 'dmy' else (t.month, t.day)
+        return '%d%s%d%s%04d' % (a, sep, b, sep, t.year)
+    from vf.symx.symstr import SymStr, Field
+    wd = 1 if t.day < 10 else 2; wm = 1 if t.month < 10 else 2
+    fd, fm = Field(t.day, wd, 'd'), Field(t.month, wm, 'm')
+    a, b = (fd, fm) if order == 'dmy' else (fm, fd)
+    return SymStr([a, sep, b, sep, Field(t.year, 4, 'Y')])
+
+def raises_valueerror(c, label, f):
+    try: f()
+    except ValueError: return
+    c.fail(label)
+
+def h_iso(c):
+    D = Ds(c); t = c.datetime('t')
+    c.cover('microseconds', t.microsecond != 0)
+    c.check('dt(iso-string)==t', key(D.dt(t.isoformat())) == key(t))
+    c.check('ymd(iso-string)-drops-the-time', key(D.ymd(t.isoformat())) == X.ordinal(t) * US_DAY)
+
+def h_dt2str(c):
+    D = Ds(c); t = c.datetime('t')
+    c.cover('midnight', X.us_of_day(t) == 0); c.cover('sub-second-only', X.And(X.us_of_day(t) > 0, X.us_of_day(t) < 10**6))
+    c.check('dt(dt2str(t))==t', key(D.dt(D.dt2str(t))) == key(t))
+
+def h_yyyymmdd_text(c):
+    D = Ds(c); t = c.ymd('t')
+    c.check("dt('yyyymmdd')==t", key(D.dt(t.strftime('%Y%m%d'))) == key(t))
+
+SEPS = ['-', '/', '.', ' ']
+def h_dmy(sep, withtime, padded):
+    def h(c):
+        D = Ds(c); t = c.datetime('t', us_step = 10**6) if withtime else c.ymd('t')
+        c.cover('day-13', t.day == 13); c.cover('day-le-12', t.day <= 12)
+        if padded:
+            uk = t.strftime('%%d%s%%m%s%%Y' % (sep, sep) + (' %H:%M:%S' if withtime else '')); us = t.strftime('%%m%s%%d%s%%Y' % (sep, sep) + (' %H:%M:%S' if withtime else ''))
+        else:
+            uk = unpadded(c, t, 'dmy', sep); us = unpadded(c, t, 'mdy', sep)
+        c.check('uk-dialect-day-month-year==t', key(D.dt(uk)) == key(t))
+        c.check('us-dialect-month-day-year==t', key(D.dt(us, dialect = 'US')) == key(t))
+        if t.day > 12:
+            raises_valueerror(c, 'unambiguous-month-day-string-is-rejected-by-the-uk-dialect', lambda: D.dt(us))
+            raises_valueerror(c, 'unambiguous-day-month-string-is-rejected-by-the-us-dialect', lambda: D.dt(uk, dialect = 'US'))
+    return h
+
+MONTHNAMES = ['January', 'february', 'Mar', 'April', 'may', 'JUNE', 'Jul', 'august', 'Sep', 'october', 'Nov', 'December']
+def h_monthname(c):
+    D = Ds(c); t = c.ymd('t')
+    mi = c.choice('month', 12); c.assume(t.month == mi + 1)
+    s = t.strftime('%d ' + MONTHNAMES[mi] + ' %Y')
+    c.check('uk-dialect-month-name-string==t', key(D.dt(s)) == key(t))
+    c.check('us-dialect-month-name-string==t', key(D.dt(s, dialect = 'US')) == key(t))
+
 def obligations(tier):
     S = setup
     return [Ob('gate.gregorian-theory', theory_gate, engine = 'gate', desc = 'Gregorian theory vs CPython date'),
@@ -99,4 +174,12 @@ def obligations(tier):
             Ob('yyyymmdd', h_yyyymmdd, setup = S, budget_s = 300, desc = 'dt(yyyymmdd int)'),
             Ob('ordinal', h_ordinal, setup = S, desc = 'dt(ordinal), dt(excel serial)'),
             Ob('overflow', h_overflow, setup = S, budget_s = 400, desc = 'dt(y,m,d) with month in [-36,48] and day in [-400,400]'),
-            Ob('bands', h_bands, setup = S, budget_s = 300, desc = 'numeric heuristics: offsets from today, years')]
+            Ob('bands', h_bands, setup = S, budget_s = 300, desc = 'numeric heuristics: offsets from today, years'),
+            Ob('gate.parser-contract', __import__('vf.symx.parser_stub', fromlist = ['gate']).gate, engine = 'gate', desc = 'dateutil.parser contract stub vs the real parser on ~25 000 strings'),
+            Ob('str.iso', h_iso, setup = setup_str, budget_s = 300, desc = 'dt / ymd of the ISO string, to the microsecond'),
+            Ob('str.dt2str', h_dt2str, setup = setup_str, budget_s = 300, desc = 'dt(dt2str(t)) == t, to the microsecond'),
+            Ob('str.yyyymmdd', h_yyyymmdd_text, setup = setup_str, budget_s = 300, desc = "dt('yyyymmdd') == t"),
+            Ob('str.month-name', h_monthname, setup = setup_str, budget_s = 400, desc = 'day month-name year strings, both dialects')] + \
+           [Ob('str.dmy.%s.%s.%s' % ({'-': 'dash', '/': 'slash', '.': 'dot', ' ': 'space'}[sep], 'time' if wt else 'date', 'padded' if pad else 'unpadded'), h_dmy(sep, wt, pad), setup = setup_str, budget_s = 400,
+               desc = 'day-month-year (uk) and month-day-year (us) strings with separator %r == t; the other dialect rejects unambiguous strings' % sep)
+            for sep in SEPS for wt, pad in ((False, True), (True, True), (False, False))]
